@@ -39,7 +39,7 @@ inductive Op where
 inductive Fault where
   | allocLive                     -- the allocator handed out a live buffer (excluded by C20)
   | notOwner                      -- use after free / double free / foreign buffer (excluded by C11)
-  | staleRead                     -- bytes read that the owner never wrote (excluded by C11)
+  | staleRead                     -- bytes read that the owner never wrote (NOT a theorem of C11: C09 differential + c10-foreign)
   deriving Repr, DecidableEq
 
 def init : G := { heap := fun _ => {}, wire := fun _ => [] }
